@@ -17,7 +17,8 @@ from harness.core import fl, nl, bl, ll, pl, optl, FLOAT_AXIOMS
 
 PROP = "C14"
 THEOREMS = {"Artap.Props.C14": [
-    "C14_worstcase_children", "C14_displaced_one_axis", "C14_worstcase_cost_shape", "C14_worstcase_no_reprocessing",
+    "C14_worstcase_children", "C14_displaced_one_axis", "C14_worstcase_cost_shape", "C14_worstcase_processing_and_calls",
+    "C14_gradient_with_resubmission", "C14_worstcase_cost_shape_fresh_batches", "C14_worstcase_no_reprocessing",
     "C14_worstcase_call_budget", "C14_gradient_forward_difference", "C14_gradient_budget",
     "C14_gradient_no_reprocessing"]}
 AXIOMS_OK = []
@@ -37,9 +38,10 @@ TRUSTED = [
 ]
 ASSUMPTIONS = [
     "serial evaluation (options['max_processes'] = 1); the parallel path is property C07",
-    "every batch consists of designs that have not been evaluated before (state EMPTY, as every generation of EpsMOEA / NSGAII); "
-    "an already processed Individual object that is submitted again gets a second sensitivity entry because the length test is "
-    "`len(costs) > self.n` (see notes/C14.md) - outside the property's quantifier",
+    "C14_worstcase_cost_shape / _processing_and_calls / C14_gradient_with_resubmission cover batches that contain fresh designs, designs "
+    "already evaluated by a plain Evaluator and designs submitted again (any number of times, in any order within the batch); within one "
+    "batch the submitted objects are pairwise distinct and are designs, not children created by the evaluator; the remaining theorems "
+    "(children, no_reprocessing, call budgets, forward difference) are stated for batches of fresh designs",
     "the objective is a function of the vector, returns a fresh list of exactly len(problem.costs) numbers and does not raise",
     "all designs have len(problem.parameters) coordinates and every parameter has a 'tol' entry (worst case); tolerances are floats "
     "(or non-zero ints: an int tolerance 0 gives -1 * 0 = 0 instead of -0.0, which is visible only on a coordinate that is -0.0)",
@@ -233,7 +235,7 @@ def run(ctx):
 
     def fail(what, case, kind, **kw):
         if len(ctx.oracle_failures) < 40:
-            inp = {k: case.get(k) for k in ("mode", "wc", "n", "m", "tols", "objs", "criteria", "batches")}
+            inp = {k: case.get(k) for k in ("mode", "wc", "n", "m", "tols", "objs", "criteria", "batches", "again", "pre")}
             inp.update(kw)
             ctx.oracle_failures.append({"what": what, "input": inp, "match": {"kind": kind}})
 
@@ -250,11 +252,23 @@ def run(ctx):
         for (ind, v, c) in problem.calls:
             ncalls[id(ind)] = ncalls.get(id(ind), 0) + 1
         ret = {id(ind): c for (ind, v, c) in problem.calls}
+        subs = {}
         for bi, batch in enumerate(submitted[:upto + 1]):
             for di, (x, v0) in enumerate(batch):
-                where = {"batch": bi, "design": di, "vector": v0, "after_batch": upto}
+                subs.setdefault(id(x), []).append(bi)
+        done_once = set()
+        for bi, batch in enumerate(submitted[:upto + 1]):
+            for di, (x, v0) in enumerate(batch):
+                if id(x) in done_once:
+                    continue
+                done_once.add(id(x))
+                where = {"batch": bi, "design": di, "vector": v0, "after_batch": upto, "submitted_in_batches": subs[id(x)]}
                 if len(x.costs) != m + 1:
-                    if bi < upto and len(x.costs) > m + 1:
+                    if len(subs[id(x)]) > 1:
+                        fail("design submitted in batches %r has %d cost entries after batch %d (required %d: %d user objectives + 1, "
+                             "however often it is evaluated again)" % (subs[id(x)], len(x.costs), upto, m + 1, m),
+                             case, "worstcase_resubmission", costs=[num(c) for c in x.costs], **where)
+                    elif bi < upto and len(x.costs) > m + 1:
                         fail("design of batch %d has %d cost entries after batch %d was evaluated (required %d: %d user objectives + 1)"
                              % (bi, len(x.costs), upto, m + 1, m), case, "worstcase_reprocess", costs=[num(c) for c in x.costs], **where)
                     else:
@@ -305,9 +319,9 @@ def run(ctx):
                     fail("costs_signed %r: required %d signed user objectives, the extra objective, the feasibility flag" % (sc, m),
                          case, "worstcase_signed_shape", **where)
         total = sum(len(b) for b in submitted[:upto + 1])
-        if len(problem.calls) != (1 + 2 * n) * total:
-            fail("%d objective calls for %d designs (required (1 + 2n) per design = %d)" % (len(problem.calls), total, (1 + 2 * n) * total),
-                 case, "worstcase_budget", after_batch=upto)
+        if len(problem.calls) != len(done_once) + 2 * n * total:
+            fail("%d objective calls for %d designs and %d submissions (required 1 per design + 2n per submission = %d)"
+                 % (len(problem.calls), len(done_once), total, len(done_once) + 2 * n * total), case, "worstcase_budget", after_batch=upto)
 
     def oracle_grad(case, problem, submitted, upto, n, m):
         by_vec = {}
@@ -316,8 +330,12 @@ def run(ctx):
         ncalls = {}
         for (ind, v, c) in problem.calls:
             ncalls[id(ind)] = ncalls.get(id(ind), 0) + 1
+        done_once = set()
         for bi, batch in enumerate(submitted[:upto + 1]):
             for di, (x, v0) in enumerate(batch):
+                if id(x) in done_once:
+                    continue
+                done_once.add(id(x))
                 where = {"batch": bi, "design": di, "vector": v0, "after_batch": upto}
                 g = x.features.get('gradient')
                 if g is None or len(g) != n:
@@ -340,19 +358,24 @@ def run(ctx):
                         fail("gradient[%d] = %r, forward difference (f(x + 1e-4 e_i) - f(x)) / 1e-4 of the first objective = %r" % (i, float(g[i]), float(want)),
                              case, "gradient_value", **where)
         total = sum(len(b) for b in submitted[:upto + 1])
-        if len(problem.calls) != (1 + n) * total:
-            fail("%d objective calls for %d designs (required 1 + n per design = %d)" % (len(problem.calls), total, (1 + n) * total),
-                 case, "gradient_budget", after_batch=upto)
+        if len(problem.calls) != len(done_once) + n * total:
+            fail("%d objective calls for %d designs and %d submissions (required 1 per design + n per submission = %d)"
+                 % (len(problem.calls), len(done_once), total, len(done_once) + n * total), case, "gradient_budget", after_batch=upto)
 
     def oracle_proc(case, proc, submitted):
         seen = {}
         for r, lst in enumerate(proc):
             for o in lst:
                 seen.setdefault(id(o), []).append(r)
+        subs = {}
+        for bi, batch in enumerate(submitted):
+            for (x, v0) in batch:
+                subs.setdefault(id(x), []).append(bi)
         for bi, batch in enumerate(submitted):
             for di, (x, v0) in enumerate(batch):
-                if seen.get(id(x), []) != [bi]:
-                    fail("design of batch %d post-processed by run() call(s) %r (required: exactly once, in its own batch)" % (bi, seen.get(id(x), [])),
+                if seen.get(id(x), []) != subs[id(x)]:
+                    fail("design submitted in batches %r post-processed by run() call(s) %r (required: exactly in the batches it is submitted in)"
+                         % (subs[id(x)], seen.get(id(x), [])),
                          case, "worstcase_reprocess" if case["wc"] else "gradient_reprocess", batch=bi, design=di, vector=v0)
                     return
 
@@ -430,8 +453,7 @@ def run(ctx):
                     break
                 after_batch(before, inds)
                 check_params(bi)
-                if not resubmits:
-                    oracle(case, problem, submitted, bi, n, m)
+                oracle(case, problem, submitted, bi, n, m)
         else:
             resubmits = False
             orig_eval = ev.evaluate
@@ -457,7 +479,7 @@ def run(ctx):
             case["batches"] = [[v for (_, v) in b] for b in submitted]
             case["again"] = [[] for _ in submitted]
             case["pre"] = [[False] * len(b) for b in submitted]
-        if raised is None and not resubmits:
+        if raised is None:
             oracle_proc(case, proc, submitted)
             if len(ev.individuals) != 0 or len(ev.to_evaluate) != 0:
                 fail("work lists not empty between batches: %d individuals, %d to_evaluate" % (len(ev.individuals), len(ev.to_evaluate)),
@@ -644,7 +666,9 @@ LEVEL_TEXT = ("Machine-checked Coq theorems over a heap-and-work-list model of E
               "every finite sequence of batches of fresh designs: the 2n neighbours and their displacements and parent links, the cost vector "
               "f(x) ++ [sum |f0(x) - f0(neighbour)|] of length m+1 and the m+2 signed entries after any number of further batches, empty work "
               "lists between batches, each design post-processed by exactly the run() call of its own batch, the exact objective call log "
-              "((1+2n) resp. (1+n) calls per design), and the stored gradient as the forward quotient (f0(x + 1e-4 e_i) - f0(x)) / 1e-4. "
+              "((1+2n) resp. (1+n) calls per design), and the stored gradient as the forward quotient (f0(x + 1e-4 e_i) - f0(x)) / 1e-4; the cost "
+              "shape, the processing log and the call log are also proved for histories in which batches contain already evaluated designs and "
+              "designs submitted again (m+1 costs however often a design is processed; #designs + 2n * #submissions calls). "
               "The model is tied to operators.py on every run by evaluating it in Coq (binary64 instance) on generated batch sequences and "
               "short EpsMOEA / NSGAII runs and comparing every reachable Individual, the call log and the work lists bit for bit.")
 LEVEL_NOTE = ("Trusted: Coq kernel + vm_compute; the hand-written model and the Python harness; Job.evaluate abstracted (objective and sign "
